@@ -618,7 +618,7 @@ class Interp:
         f = self.prims.get("__getattr__")
         if f is not None:
             return f(base, attr)
-        if type(base).__module__.startswith("sa.") and (not attr.startswith("__") or attr in ("__setitem__", "__getitem__", "__delitem__", "__contains__", "__call__", "__len__", "__init__")) and hasattr(base, attr):
+        if type(base).__module__.startswith("sa.") and (not attr.startswith("__") or attr in ("__setitem__", "__getitem__", "__delitem__", "__contains__", "__call__", "__len__", "__init__", "__dict__")) and hasattr(base, attr):
             return getattr(base, attr)  # attribute of a model object supplied by the rule
         if isinstance(base, type) and attr in ("__getattribute__", "__getattr__", "__name__", "__mro__") and hasattr(base, attr):
             return getattr(base, attr)  # introspection of a class object (any class: builtin types of sample values too)
